@@ -78,6 +78,15 @@ Proof. exact stepB_refines. Qed.
 Theorem C07_no_pointer_fault : forall E VS b p oB r, RIb b -> KU b -> oracle_free p = true ->
   stepA E VS fixed (absB b) p (ob oB) = Some r -> exists r', stepB E VS b p oB = Some r'.
 Proof. exact stepB_total. Qed.
+(* ... and for the operations that do ask hashbrown for buckets (insert, try_insert, reserve, try_reserve, shrink_to,
+   shrink_to_fit): there is a coherent structure g — the one that exists when hashbrown is asked: the initial one, or for
+   insert the one left by de-duplication and eviction, a sub-list of the initial one — such that if the oracle answers validly
+   for g (a rebuild moves listed buckets, each once, to distinct buckets outside g; the new entry's bucket is outside g and
+   not a target of the rebuild) the operation does not fault either *)
+Theorem C07_no_pointer_fault_with_buckets : forall E VS b p oB r, RIb b -> KU b -> stepA E VS fixed (absB b) p (ob oB) = Some r ->
+  exists g, RIg g /\ gseal g = gseal (bg b) /\ (forall x, In x (glist g) -> In x (glist (bg b))) /\
+            (oracle_ok_at g oB -> exists r', stepB E VS b p oB = Some r').
+Proof. exact stepB_total_oracle. Qed.
 (* ... and therefore every state reachable from new / with_capacity by any sequence of operations under any oracle
    is coherent, and its abstraction is a reachable state of Layer A: all of Layer A's theorems speak about it *)
 Theorem C07_reachable_coherent : forall E VS, 0 < E -> VS <= E -> forall b, ReachB E VS b -> RIb b /\ Reach E VS (absB b).
@@ -145,4 +154,5 @@ Print Assumptions C07_b_moves.
 Print Assumptions C07_public_ops_refine.
 Print Assumptions C07_reachable_coherent.
 Print Assumptions C07_no_pointer_fault.
+Print Assumptions C07_no_pointer_fault_with_buckets.
 Print Assumptions C07_monitor_sound.
